@@ -8,8 +8,8 @@ import numpy as np
 import common as C
 import eom_common as EC
 
-LEAN_MODULES = ["WallGoVerif.Props.C04", "WallGoVerif.Props.C04P"]
-LEMMA_MODULES = ["WallGoVerif.Lemmas.EOM", "WallGoVerif.Model.EOM", "WallGoVerif.Lemmas.ProfilePoint", "WallGoVerif.Model.ProfilePoint"]
+LEAN_MODULES = ["WallGoVerif.Props.C04", "WallGoVerif.Props.C04P", "WallGoVerif.Props.C04L"]
+LEMMA_MODULES = ["WallGoVerif.Lemmas.EOM", "WallGoVerif.Model.EOM", "WallGoVerif.Lemmas.ProfilePoint", "WallGoVerif.Model.ProfilePoint", "WallGoVerif.Model.ProfileLoop"]
 GEN_MODULES = ["Helpers", "Hydro"]
 VALIDATE_ONLY = {"hydroBoundaries", "gammaSq"}
 VALIDATION_POINTS = (100, 1000)
@@ -19,7 +19,8 @@ RULE = ("obligations = Lean theorems of Props.C04 about Model.EOM (plasmaVelocit
         "bracket direction and success flag logic) + Float correspondence of Model.EOM with the real EOM methods + recomputation of "
         "T30/T33 from every returned profile point on real runs + Props.C04P (Model.ProfilePoint: which root findPlasmaProfilePoint brackets -- "
         "detonation below, deflagration/hybrid above the minimum of the left-hand side, always with a sign change) with exact correspondence "
-        "of that model against the REAL findPlasmaProfilePoint on scripted left-hand sides and solver stubs; "
+        "of that model against the REAL findPlasmaProfilePoint on scripted left-hand sides and solver stubs + Props.C04L (loop and success flag of "
+        "findPlasmaProfile, Model.ProfileLoop, same kind of correspondence); "
         "distinct = (model, vw branch, wall shape, grid point class) or (branch, shape of the scripted left-hand side, outcome)")
 ASSUMPTIONS = ["minimize_scalar(Bounded)/brentq are oracles; which root the heuristic bracket reaches is potential dependent (monitored)",
                "out-of-equilibrium moments are exercised through the model/correspondence (harness-chosen Deltas), real runs are LTE"]
@@ -138,6 +139,21 @@ def corr(rep: C.Report, tier: str):
                    "(early return, multiplier, marching loop, bracket handed to root_scalar)", "correspondence", not bad and len(outs) == len(lines),
                    f"{len(lines)} cases; {str(bad[:1])[:400]}")
     rep.extra["profile_point_disagreements"] = bad[:3]
+    # the loop of findPlasmaProfile and its success flag: the REAL method on scripted per-point results
+    lines, expect = [], []
+    for _ in range(200 if tier == "quick" else 3000):
+        style, pts = EC.profile_loop_params(r)
+        lines.append("loop " + " ".join(f"{_b(a)} {_b(b_)}" for a, b_ in pts))
+        try:
+            expect.append(EC.scripted_profile_loop(pts))
+        except Exception as ex:  # noqa: BLE001
+            expect.append(f"raised {type(ex).__name__}: {str(ex)[:80]}")
+        rep.case(key=("profile-loop", style, len(pts)))
+        rep.count(f"profile loop {style}")
+    outs = C.lean_run("ProfileLoopF", lines)
+    bad = [{"real": e, "model": o_, "line": ln[:200]} for ln, e, o_ in zip(lines, expect, outs) if e != o_]
+    rep.obligation("correspondence Model.ProfileLoop.findPlasmaProfile = real EOM.findPlasmaProfile on scripted point results (profile, success flag)",
+                   "correspondence", not bad and len(outs) == len(lines), f"{len(lines)} cases; {str(bad[:1])[:300]}")
 
 
 def search(rep: C.Report, tier: str, broken):
